@@ -52,6 +52,8 @@ Step_C06 == [][P!F_C06_step(S.cfg, S, S') = {}]_S
 Step_C07 == [][P!F_C07_step(S.cfg, S, S') = {}]_S
 Step_C08 == [][P!F_C08_step(S.cfg, S, S') = {}]_S
 Step_C09 == [][P!F_C09_step(S.cfg, S, S', S.rt) = {}]_S
+Inv_C17 == P!F_C17_inv(S.cfg, S, S.gb) = {}
+Step_C17 == [][P!F_C17_step(S.cfg, S, S') = {}]_S
 Step_C10 == [][P!F_C10_step(S.cfg, S, S') = {}]_S
 Step_C11 == [][P!F_C11_step(S.cfg, S, S') = {}]_S
 Step_C13 == [][P!F_C13_step(S.cfg, S, S') = {}]_S
